@@ -795,6 +795,7 @@ class Exporter {
       }
     }
     O["template"] = TK;
+    if (!FD->isExternallyVisible()) O["internal"] = true;
     json::Array Ps;
     for (auto *P : FD->parameters()) {
       json::Object PO;
